@@ -30,8 +30,9 @@ def gen_cases(seed, n, maxlen, cutoff, tier='quick'):
     dist['corpus_cases'] = k
     return cases, dist
 
-def run_impl(res, bb, casefile):
-    rc, lines = run_lines([bb, 'ord', casefile])
+def run_impl(res, bb, casefile, shards=0):
+    # the long oracle-only cases take minutes each in a debug build: one process per couple of cases
+    rc, lines = run_lines_sharded([bb, 'ord'], casefile, shards=shards, min_per_shard=1) if shards else run_lines([bb, 'ord', casefile])
     if rc != 0:
         res.add_broken('correspondence', 'bb ord run', f"rc={rc} {' '.join(lines[-3:])}")
     return split_oracle(lines)
@@ -109,7 +110,7 @@ def main():
         res.oracle_fail = oracle_fail_records(fails, by_id)
         if long_cases:
             f3 = os.path.join(WORK, f'cases_{PROP}_long.txt'); open(f3, 'w').write('\n'.join(long_cases) + '\n')
-            _, lf = run_impl(res, bb, f3)
+            _, lf = run_impl(res, bb, f3, shards=16)
             res.oracle_fail += oracle_fail_records(lf, {c.split()[0]: c for c in long_cases})
         if res.oracle_fail:
             res.oracle_fail[0]['case'] = shrink(bb, res.oracle_fail[0]['case'])
